@@ -247,8 +247,8 @@ func scanConcScenario(r *runner, ws []string) (out string) {
 // at engine level; a few free-running writers add ordinary contention.)
 func seekStorm(e *engine.EngineFacade, g *gen, nStable, writers int, sk func(int) []byte) string {
 	var nWrites atomic.Int64
-	var armed atomic.Int32  // hits of the armed insert still to pass before it is paused
-	var owner atomic.Int64  // goroutine token of the armed insert (0 = none)
+	var armed atomic.Int32 // hits of the armed insert still to pass before it is paused
+	var owner atomic.Int64 // goroutine token of the armed insert (0 = none)
 	paused := make(chan struct{}, 1)
 	release := make(chan struct{})
 	verifhook.Set(func(site string) {
